@@ -27,6 +27,15 @@ def _zb(f):
     return z3.BoolVal(f) if isinstance(f, bool) else f
 
 
+def _tb(x):
+    """truthiness of a local holding a bool or an opaque algo result"""
+    from pyvc.symexec import PyObjV
+
+    if isinstance(x, PyObjV):
+        return x.truthy
+    return z3.BoolVal(x) if isinstance(x, bool) else x
+
+
 def spec_call_algo(S, algo, target):
     """ghost effect of invoking an opaque algo once"""
     clk = S.get(target, "g_clock") + 1
@@ -127,7 +136,7 @@ def _ff(ctx):
     ih = ctx.i - 1
     self = ctx.entry.locals["self"]
     ri = algoret_f(algos_at(ctx.entry.heap, self, ih).term)
-    resh = resh if not isinstance(resh, bool) else z3.BoolVal(resh)
+    resh = _tb(resh)
     return ite(And(resh, Not(ri)), ih, ffh)
 
 
@@ -136,8 +145,7 @@ def _mode2_inv(ctx):
     self, target = ctx.entry.locals["self"], ctx.entry.locals["target"]
     h = st.heap
     i = ctx.i
-    res = st.locals["res"]
-    res = res if not isinstance(res, bool) else z3.BoolVal(res)
+    res = _tb(st.locals["res"])
     ff = _ff(ctx)
     a = lambda j: algos_at(E, self, j)
     called = lambda j: Or(res, Num.lift(j) <= ff, always(E, a(j)))
@@ -164,8 +172,7 @@ def _w(ctx):
             st.ghost["w"] = w
         return w
     wh = ctx.head.ghost["w"]
-    resh = ctx.head.locals["res"]
-    resh = resh if not isinstance(resh, bool) else z3.BoolVal(resh)
+    resh = _tb(ctx.head.locals["res"])
     ih = ctx.i - 1
     return ite(resh, wh, ih)
 
@@ -175,8 +182,7 @@ def _or_inv(ctx):
     self, target = ctx.entry.locals["self"], ctx.entry.locals["target"]
     h = st.heap
     i = ctx.i
-    res = st.locals["res"]
-    res = res if not isinstance(res, bool) else z3.BoolVal(res)
+    res = _tb(st.locals["res"])
     w = _w(ctx)
     a = lambda j: algos_at(E, self, j, "_list_of_algos")
     clk0 = E.get(target, "g_clock")
@@ -231,8 +237,7 @@ def verify_algostack(ex, contract, timeout_ms=30000):
                     obligs.append(Oblig("AlgoStack.__call__/no-other-exit", st.pc, False, "post", P13))
                 continue
             F = st.heap
-            res = oc.value
-            res = res if not isinstance(res, bool) else z3.BoolVal(res)
+            res = _tb(oc.value)
 
             def ob(cid, goal):
                 o = Oblig("AlgoStack.__call__/%s" % cid, st.pc, goal, "post", P13)
@@ -306,8 +311,7 @@ def verify_or(ex, contract, timeout_ms=30000):
                     obligs.append(Oblig("Or.__call__/no-other-exit", st.pc, False, "post", P13))
                 continue
             F = st.heap
-            res = oc.value
-            res = res if not isinstance(res, bool) else z3.BoolVal(res)
+            res = _tb(oc.value)
             w = st.ghost.get("w", Num.lift(0))
 
             def ob(cid, goal):
@@ -335,7 +339,7 @@ def verify_or(ex, contract, timeout_ms=30000):
 def spec_not(S, self, target):
     algo = S.get(self, "_algo")
     r = spec_call_algo(S, algo, target)
-    return Not(r)
+    return Not(r)  # `not x` is the negated truthiness of whatever the algo returns
 
 
 def _apply_stack(ex, st, recv, args, exact=False):
@@ -363,12 +367,24 @@ LOOPS = {
 from .tree import slot_f, cidx_f, treeof_f, child_facts, children_schema  # noqa: E402
 
 
+def tree_keys():
+    """heap maps that describe nodes of a strategy tree (what user algos running on a tree may change)"""
+    from .core_strat import update_modkeys
+
+    return list(update_modkeys()) + ["stale", "_childrenv", "_childrenv#len", "children", "children#has", "temp#has", "perm_ver", "g_clock", "g_runs", "_universe_tickers"]
+
+
 def _havoc_tree(st, root_term, keep=("g_calls", "g_stamp")):
     """anything inside the tree rooted at root_term may change (user algos trade, add lazy children, write temp)"""
     h = st.heap
-    for key in list(h.maps.keys()):
-        if key.split("#")[0] in keep:
+    for key in tree_keys():
+        if key.split("#")[0] in keep or key == "_universe_tickers":
             continue
+        if key not in h.maps:
+            try:
+                h.ensure(key)
+            except Exception:
+                continue
         h.havoc(key, cond=lambda x: treeof_f(x) == root_term)
 
 
@@ -395,9 +411,14 @@ def apply_run(ex, st, recv, args, exact=False):
     parent = h.get(recv, "parent")
     k = cidx_f(recv.term)
     isroot = parent.term == recv.term
-    for key in list(h.maps.keys()):
-        if key.split("#")[0] in ("g_calls", "g_stamp", "g_runs", "parent", "root", "_issec", "_paper", "_paper_trade", "_fixed_income", "_bidoffer_set", "_has_strat_children"):
+    for key in tree_keys():
+        if key in ("g_runs", "_universe_tickers"):
             continue
+        if key not in h.maps:
+            try:
+                h.ensure(key)
+            except Exception:
+                continue
         h.havoc(key, cond=lambda x: z3.If(isroot, treeof_f(x) == recv.term, slot_f(parent.term, x) == k))
     s2 = st.fork()
     s2.assume(dsl.fresh_bool("run_raises"))
@@ -461,6 +482,8 @@ def verify_strategy_run(ex, contract, timeout_ms=30000):
             obligs.extend(st.obligs)
             if oc.kind == "raise" and oc.exc == "<cut>":
                 continue
+            if oc.kind == "raise":
+                continue  # an exception of the stack or of a child's run propagates
             if oc.kind != "normal":
                 obligs.append(Oblig("Strategy.run/no-other-exit", st.pc, False, "post", P13))
                 continue
